@@ -7,12 +7,12 @@ from simnet import monitors, proto, scen, sessions, tunnelscn
 from simnet.scen import US
 
 
-def _apply(prop, k, domain, wildcard, ns_ip, out, procs=None):
+def _apply(prop, k, domain, wildcard, ns_ip, out, procs=None, bind_port=None):
     if prop == "C10":
-        v, st, shapes = monitors.mon_c10(k, domain, (scen.SERVER_IP, scen.SERVER_IP6), ns_ip=ns_ip, wildcard=wildcard, procs=procs)
+        v, st, shapes = monitors.mon_c10(k, domain, (scen.SERVER_IP, scen.SERVER_IP6), ns_ip=ns_ip, wildcard=wildcard, procs=procs, bind_port=bind_port)
         out["sets"]["shapes"] = {repr(x) for x in shapes}
     elif prop == "C14":
-        v, st, trig = monitors.mon_c14(k, domain, wildcard=wildcard)
+        v, st, trig = monitors.mon_c14(k, domain, wildcard=wildcard, bind_port=bind_port)
         out["sets"]["answer_triggers"] = set(trig)
     else:
         v, st, fs = monitors.mon_c15(k, domain, wildcard=wildcard)
@@ -33,7 +33,7 @@ def scn(params):
             if not s.ok:
                 if s.why == "model-login-failed" and getattr(s, "srv", None) is not None:
                     # the model client could not make sense of the server's answers: what the server emitted is still there to judge
-                    v, _st = _apply(prop, s.sim.k, s.server_domain, bool(cfg.get("wild")), cfg.get("ns_ip"), out)
+                    v, _st = _apply(prop, s.sim.k, s.server_domain, bool(cfg.get("wild")), cfg.get("ns_ip"), out, bind_port=sessions.BIND_PORT if cfg.get("bind") else None)
                     for (key, what, wit) in v[:3]:
                         out["violations"].append((key, what, dict(wit, seed=seed, cfg=_jcfg(cfg), note="the model client's handshake did not complete")))
                     if out["violations"]:
@@ -45,7 +45,7 @@ def scn(params):
             if h != "running":
                 out["stats"]["server_died"] = 1
                 out["inconclusive"] = "server-" + h.split(":")[0]
-            v, st = _apply(prop, k, s.server_domain, bool(cfg.get("wild")), cfg.get("ns_ip"), out)
+            v, st = _apply(prop, k, s.server_domain, bool(cfg.get("wild")), cfg.get("ns_ip"), out, bind_port=sessions.BIND_PORT if cfg.get("bind") else None)
             for (key, what, wit) in v[:3]:
                 out["violations"].append((key, what, dict(wit, seed=seed, cfg=_jcfg(cfg))))
             for mc in s.mcs:
